@@ -927,13 +927,16 @@ def r11(R):
             if any(exempt_if(e, truth)
                    for e, truth in implied_atoms(node.ast, lab)):
                 return True
-            t = node.ast
-            # a conjunction that fails: some conjunct is false
-            if lab == 'F' and isinstance(t, ast.BoolOp) and isinstance(
+            t, lb = node.ast, lab
+            while isinstance(t, ast.UnaryOp) and isinstance(t.op, ast.Not):
+                t, lb = t.operand, ('F' if lb == 'T' else 'T')
+            # a conjunction that fails: some conjunct is false; a
+            # disjunction that holds: some disjunct is true
+            if lb == 'F' and isinstance(t, ast.BoolOp) and isinstance(
                     t.op, ast.And) and all(exempt_if(c, False)
                                            for c in t.values):
                 return True
-            if lab == 'T' and isinstance(t, ast.BoolOp) and isinstance(
+            if lb == 'T' and isinstance(t, ast.BoolOp) and isinstance(
                     t.op, ast.Or) and all(exempt_if(c, True)
                                           for c in t.values):
                 return True
